@@ -10,7 +10,7 @@ SPEC = {
     "level": "exploration",
     "design_ref": "DESIGN.md section 5, C16",
     "rule": ("cases = (shape of W-DAG and W-DIG/W-NAMED) x (every weight vector in the alphabet); inside: weight_type x {plain, each single ignored arc, "
-             "error_scaling 0.5/0 on each arc, additional start / end at each inner node, sparsity_lambda in {0.5, 2} (DAG), epsilon in {0, 0.25, 1}, node-weighted twin}; "
+             "error_scaling 0.5/0 on each arc, additional start / end at each inner node, sparsity_lambda in {0.5, 2} (DAG), epsilon in {0, 0.25, 1}, every node-value vector over {0,1,3} on the shapes with |V|+|E| <= 6 (thorough 7), with and without epsilon (node mode)}; "
              "oracle: brute force over all integer flows in {0..F+1}^E that satisfy conservation at every node with both in- and out-arcs (declared starts/ends exempt) - "
              "exact for integral data for both weight types (network matrix); non-trivial = distinct (shape, weights, variant) whose optimum error is > 0 and was matched"),
     "assumptions": ["integral data => an integral optimal flow exists also for float weights (totally unimodular constraint matrix), so the integer brute force is the float optimum too",
@@ -38,6 +38,9 @@ def cases(tier, seed):
             if max(fv) == 0:
                 continue
             yield {"fam": fam, "nodes": names, "arcs": [[u, v, w] for (u, v), w in zip(arcs, fv)], "full": i % 4 == 1}
+        if len(names) + len(arcs) <= (6 if q else 7):
+            for first in (0, 1, 3):
+                yield {"part": "node", "fam": fam, "nodes": names, "arcs": [[u, v, None] for (u, v) in arcs], "first": first}
 
 
 def closest_flow(V, E, f, scale, ignored, starts, ends, lam=0.0, src_arcs=None, F=None):
@@ -134,6 +137,8 @@ def closest_flow(V, E, f, scale, ignored, starts, ends, lam=0.0, src_arcs=None, 
 
 def run(case):
     import flowpaths as fp
+    if case.get("part") == "node":
+        return _run_node(case)
     viol = []
     nt = []
     tags = collections.Counter()
@@ -242,32 +247,68 @@ def run(case):
             one("lambda", {"sparsity_lambda": lam}, "int", lam=lam)
     for eps in (0, 0.25, 1):
         one("epsilon", {"few_flow_values_epsilon": eps}, "int", eps=eps)
-    # node-weighted twin: values on nodes (use the in-arc sums as node values, perturbed by arc 0's weight)
-    nw = {v: (sum(fl[i] for i, e in enumerate(E) if e[1] == v) or sum(fl[i] for i, e in enumerate(E) if e[0] == v)) for v in V}
-    c2 = {"nodes": V, "arcs": [[u, v, None] for (u, v) in E], "node_w": nw}
-    if len(V) + len(E) > 6 or max(nw.values()) > 4:
-        return _ret(viol, nt, tags)
-    try:
-        m = fp.MinErrorFlow(drivers.build_graph(c2), flow_attr="flow", flow_attr_origin="node", weight_type=int, solver_options={"threads": 1})
-        m.solve()
-        sol = m.get_solution()
-        tags["node_mode"] += 1
-        H = sol["graph"]
-        if set(H.nodes()) != set(V) or set(H.edges()) != set(E):
-            viol.append({"kind": "mef_graph_changed", "msg": f"node mode: corrected graph has nodes {sorted(H.nodes())} arcs {sorted(H.edges())}"})
-        else:
-            # oracle on my own expansion: node arcs weighted, original arcs ignored
-            VV = [v + "|i" for v in V] + [v + "|o" for v in V]
-            EE = [(v + "|i", v + "|o") for v in V] + [(u + "|o", v + "|i") for (u, v) in E]
-            ff = [nw[v] for v in V] + [0] * len(E)
-            best, bx = closest_flow(VV, EE, ff, [1] * len(EE), set(range(len(V), len(EE))), set(), set(), F=max(ff) + 1)
-            rec = sum(abs(nw[v] - H.nodes[v].get("flow", 0)) for v in V)
-            if abs(rec - best) > 1e-6 or abs(sol["error"] - best) > 1e-6:
-                viol.append({"kind": "mef_node_mode_mismatch", "msg": f"node mode: node values {nw}: corrected node values change {rec} (reported {sol['error']}), explicit expansion optimum {best}"})
-            elif best > 0:
-                nt.append(f"{key}|node")
-    except Exception as e:
-        viol.append({"kind": "mef_exception", "msg": f"node mode raised {common.exc_str(e)}"})
+    return _ret(viol, nt, tags)
+
+
+def _node_mode(V, E, variants, key, viol, nt, tags):
+    import flowpaths as fp
+    VV = [v + "|i" for v in V] + [v + "|o" for v in V]
+    EE = [(v + "|i", v + "|o") for v in V] + [(u + "|o", v + "|i") for (u, v) in E]
+    free = set(range(len(V), len(EE)))
+    for vname, nwv in variants:
+        c2 = {"nodes": V, "arcs": [[u, v, None] for (u, v) in E], "node_w": nwv}
+        ff = [nwv[v] for v in V] + [0] * len(E)
+        best, bx = closest_flow(VV, EE, ff, [1] * len(EE), free, set(), set(), F=max(ff) + 1)
+        for eps in (None, 0.5):
+            ctx = f"node mode ({vname}: node values {nwv}, epsilon={eps})"
+            try:
+                kwn = {} if eps is None else {"few_flow_values_epsilon": eps}
+                m = fp.MinErrorFlow(drivers.build_graph(c2), flow_attr="flow", flow_attr_origin="node", weight_type=int, solver_options={"threads": 1}, **kwn)
+                m.solve()
+                if not m.is_solved():
+                    # trusted-base guard (see drivers.observe): retry once with HiGHS presolve off
+                    m = fp.MinErrorFlow(drivers.build_graph(c2), flow_attr="flow", flow_attr_origin="node", weight_type=int, solver_options={"threads": 1, "presolve": "off"}, **kwn)
+                    m.solve()
+                    if m.is_solved():
+                        tags["highs_presolve_rescue"] += 1
+                if not m.is_solved():
+                    viol.append({"kind": "mef_unsolved", "msg": f"{ctx}: not solved"})
+                    continue
+                sol = m.get_solution()
+                tags["node_mode"] += 1
+                H = sol["graph"]
+                if set(H.nodes()) != set(V) or set(H.edges()) != set(E):
+                    viol.append({"kind": "mef_graph_changed", "msg": f"{ctx}: corrected graph has nodes {sorted(H.nodes())} arcs {sorted(H.edges())}"})
+                    continue
+                hv = {v: H.nodes[v].get("flow", 0) for v in V}
+                rec = sum(abs(nwv[v] - hv[v]) for v in V)
+                # the corrected node values must be realisable as a flow: their own closest flow is at distance 0
+                back, _ = closest_flow(VV, EE, [hv[v] for v in V] + [0] * len(E), [1] * len(EE), free, set(), set(), F=max(list(hv.values()) + [1]) + 1)
+                if any(x < 0 for x in hv.values()) or abs(back) > 1e-6:
+                    viol.append({"kind": "mef_not_conserving", "msg": f"{ctx}: corrected node values {hv} are not the node throughputs of any flow (distance {back})"})
+                elif abs(sol["error"] - rec) > 1e-6:
+                    viol.append({"kind": "mef_error_mismatch", "msg": f"{ctx}: reported error {sol['error']} but the node values changed by {rec} in total ({hv})"})
+                elif (eps is None and abs(rec - best) > 1e-6) or (eps is not None and (rec < best - 1e-6 or rec > (1 + eps) * best + 1e-6)):
+                    viol.append({"kind": "mef_node_mode_mismatch", "msg": f"{ctx}: corrected node values change {rec} (reported {sol['error']}), explicit expansion optimum {best}"})
+                elif best > 0:
+                    nt.append(f"{key}|node|{vname}|{eps}")
+            except Exception as e:
+                viol.append({"kind": "mef_exception", "msg": f"{ctx} raised {common.exc_str(e)}"})
+
+
+def _run_node(case):
+    """node-weighted instances: EVERY node-value vector over {0,1,3} on the shape (first node's value fixed by the case), with and without epsilon"""
+    viol, nt, tags = [], [], collections.Counter()
+    V = case["nodes"]
+    E = [(a[0], a[1]) for a in case["arcs"]]
+    key = world.shape_key((len(V), tuple(E)))
+    variants = []
+    for rest in itertools.product((0, 1, 3), repeat=len(V) - 1):
+        vec = (case["first"],) + rest
+        if max(vec) == 0:
+            continue
+        variants.append((",".join(map(str, vec)), dict(zip(V, vec))))
+    _node_mode(V, E, variants, key, viol, nt, tags)
     return _ret(viol, nt, tags)
 
 
